@@ -284,6 +284,7 @@ func checkC14(c *Ctx) {
 	c.Rule("R4", "who may send: callers of client.Send / MakeRequestToHost / MakeRequest are the allowed roles; the unknown-command and invalid-request arms never call a handler")
 	c.Rule("R5", "host choice: a return that can yield a replica address is dominated by IsReadOnly()==true and by a strategy test that permits replicas; the non-read-only branch returns the slot entry's own address")
 	c.Rule("R6", "replicas are attached only to the master named by their own master id; slot entries only from master lines")
+	c.Rule("R8", "command names are normalised byte-wise (ASCII): a name that is not a supported command byte-for-byte (ignoring ASCII case) cannot fold into one")
 	c.Rule("R7", "the command that was validated is the command that is forwarded: no alias of the read buffer escapes into a request (shared with C10.R2)")
 
 	send := p.Func(redisPkg, "(*client).Send")
@@ -375,8 +376,9 @@ func checkC14(c *Ctx) {
 	t := p.mapTableOf(nil, cmdF)
 	for _, l := range t.Lookups {
 		site := "lookup in " + fnKey(l.Parent())
-		if call, ok := l.Index.(*ssa.Call); ok && isCallTo(call, "strings.ToLower") {
-			c.OK("R1", site, l.Pos(), "index is strings.ToLower(...)")
+		if kind, _ := lowerCallKind(l.Index); kind != "" {
+			c.OK("R1", site, l.Pos(), "index is the lower-cased command name ("+kind+")")
+			c.Check(kind == "ascii", "R8", "name normalisation in "+fnKey(l.Parent()), l.Pos(), "byte-wise ASCII lower-casing", unicodeLowerWhy)
 		} else {
 			c.Fail("R1", site, l.Pos(), "handler lookup does not lower-case the command name: upper-case forms of supported commands are rejected / mixed-case entries bypass")
 		}
@@ -654,13 +656,13 @@ func checkIsReadOnly(c *Ctx, iro *ssa.Function, roG *ssa.Global) {
 		return
 	}
 	// key = string(bytes.ToLower(r.body.Array[0].Text))
-	key := stripConv(lk.Index)
-	call, ok := key.(*ssa.Call)
-	if !ok || !(isCallTo(call, "bytes.ToLower") || isCallTo(call, "strings.ToLower")) {
+	kind, arg := lowerCallKind(lk.Index)
+	if kind == "" {
 		c.Fail("R2", site, lk.Pos(), "lookup key is not the lower-cased command name: read-only classification would depend on letter case")
 		return
 	}
-	ap := accessPath(stripConv(call.Call.Args[0]), nil, 0)
+	c.Check(kind == "ascii", "R8", "name normalisation in "+fnKey(iro), lk.Pos(), "byte-wise ASCII lower-casing", unicodeLowerWhy)
+	ap := accessPath(stripConv(arg), nil, 0)
 	if ap != "r.body.Array[0].Text" {
 		c.Fail("R2", site, lk.Pos(), "lookup key is not the request's own command name (argument 0), got path "+ap)
 		return
@@ -1181,4 +1183,54 @@ func checkSlotFill(c *Ctx, rule string) {
 	if n == 0 {
 		c.Unresolved(rule, "no store into upstream.slots[s]")
 	}
+}
+
+const unicodeLowerWhy = "the command name is normalised with a Unicode-aware lower-casing (strings/bytes.ToLower): names that are not Redis commands byte-wise - e.g. \"\u0130NCR\" (dotted capital I) or \"H\u212aEYS\" (Kelvin sign) - fold to supported names, pass the validation and are forwarded verbatim: a command that is not in the supported set reaches the backend"
+
+// lowerCallKind classifies the call that produces a table key from the command name: "unicode" for
+// strings.ToLower/bytes.ToLower, "ascii" for a module helper that maps only 'A'..'Z' (no call into the
+// strings/bytes/unicode case functions, compares bytes with 'A' and 'Z'), "" otherwise. Returns the name argument.
+func lowerCallKind(v ssa.Value) (string, ssa.Value) {
+	call, ok := stripConv(v).(*ssa.Call)
+	if !ok || len(call.Call.Args) == 0 {
+		return "", nil
+	}
+	if isCallTo(call, "bytes.ToLower") || isCallTo(call, "strings.ToLower") {
+		return "unicode", call.Call.Args[0]
+	}
+	g := calleeFn(call.Common())
+	if g == nil || !isModFn(g) || g.Blocks == nil {
+		return "", nil
+	}
+	hasA, hasZ, calls := false, false, false
+	for _, f := range append([]*ssa.Function{g}, staticCalleesDeep(g, 1)...) {
+		eachInstr(f, func(_ *ssa.BasicBlock, _ int, in ssa.Instruction) {
+			if cc := callOf(in); cc != nil {
+				if h := calleeFn(cc); h != nil && h.Pkg != nil {
+					switch h.Pkg.Pkg.Path() {
+					case "strings", "bytes", "unicode", "unicode/utf8":
+						if strings.HasPrefix(h.Name(), "To") || strings.Contains(h.Name(), "Fold") || strings.Contains(h.Name(), "Map") {
+							calls = true
+						}
+					}
+				}
+			}
+			if bo, ok := in.(*ssa.BinOp); ok {
+				for _, y := range []ssa.Value{bo.X, bo.Y} {
+					if k, isC := constInt(y); isC {
+						if k == 'A' {
+							hasA = true
+						}
+						if k == 'Z' {
+							hasZ = true
+						}
+					}
+				}
+			}
+		})
+	}
+	if hasA && hasZ && !calls {
+		return "ascii", call.Call.Args[0]
+	}
+	return "", nil
 }
